@@ -124,10 +124,11 @@ theorem scanEqual_bucket (w : Nat) (l : Pairs) (hok : PairsOK w l) (d : Bytes) :
       rw [digestAt_bucket w l hok i hlt, offsetAt_bucket w l hok i hlt]
       have hd : l.drop i = l[i] :: l.drop (i + 1) := (List.drop_eq_getElem_cons hlt)
       rw [hd, List.takeWhile_cons]
-      by_cases he : (l[i].1 == d) = true
-      · simp only [he, ↓reduceIte, List.map_cons]
-        rw [ih (i + 1) (by omega) (by omega)]
+      by_cases he : l[i].1 = d
+      · simp [he, ih (i + 1) (by omega) (by omega)]
+        exact if_pos he
       · simp [he]
+        exact he
     · have hl : ¬ i < (bucketOf w l).len := hlt
       simp only [hl, ↓reduceIte]
       have : l.drop i = [] := List.drop_eq_nil_of_le (by omega)
@@ -194,13 +195,14 @@ theorem getAll_bucket (w : Nat) (l : Pairs) (hok : PairsOK w l)
   have hlen : (bucketOf w l).len = l.length := rfl
   rw [hlen]
   -- the search predicate on indices below the length is `d ≤ l[i].digest`, monotone by sortedness
-  have hf : ∀ i (h : i < l.length), (fun i => bytesLe d ((bucketOf w l).digestAt i)) i = bytesLe d (l[i]'h).1 := by
-    intro i h; simp only; rw [digestAt_bucket w l hok i h]
+  have hf : ∀ i (h : i < l.length), bytesLe d ((bucketOf w l).digestAt i) = bytesLe d (l[i]'h).1 := by
+    intro i h; rw [digestAt_bucket w l hok i h]
   have hmono : ∀ i j, i ≤ j → j < l.length →
       (fun i => bytesLe d ((bucketOf w l).digestAt i)) i = true →
       (fun i => bytesLe d ((bucketOf w l).digestAt i)) j = true := by
     intro i j hij hj hfi
     have hi : i < l.length := by omega
+    simp only at hfi ⊢
     rw [hf i hi] at hfi
     rw [hf j hj]
     by_cases e : i = j
@@ -215,5 +217,120 @@ theorem getAll_bucket (w : Nat) (l : Pairs) (hok : PairsOK w l)
   rw [filter_eq_takeWhile_drop l hs d i0
     (fun i h hlt => by have := hr3 i hlt; rw [hf i h] at this; exact this)
     (fun i h hge => by have := hr4 i hge h; rw [hf i h] at this; exact this) hr2]
+
+end Car
+
+namespace Car
+
+theorem mem_distinctSorted (l : List Nat) (a : Nat) : a ∈ distinctSorted l ↔ a ∈ l := by
+  unfold distinctSorted
+  rw [List.mem_eraseDups, List.mem_mergeSort]
+
+/-- first bucket whose key matches, in a list of buckets built from keys -/
+theorem find_map_key {α : Type} (f : Nat → α) (p : α → Bool) (k0 : Nat) (hp : ∀ w, p (f w) = (w == k0)) :
+    ∀ (ws : List Nat), (ws.map f).find? p = if k0 ∈ ws then some (f k0) else none := by
+  intro ws
+  induction ws with
+  | nil => simp
+  | cons w t ih =>
+    simp only [List.map_cons, List.find?_cons, hp]
+    by_cases e : w = k0
+    · subst e; simp
+    · have : (w == k0) = false := by simpa using e
+      simp only [this, ih, List.mem_cons]
+      have : ¬ k0 = w := fun h => e h.symm
+      simp [this]
+
+/-- the pairs of one width group, digest-sorted -/
+def groupPairs (rs : List Record) (w : Nat) : Pairs :=
+  ((rs.filter fun r => r.cid.digest.length == w).mergeSort (fun a b => bytesLe a.cid.digest b.cid.digest)).map
+    fun r => (r.cid.digest, r.offset)
+
+theorem load_bucket (rs : List Record) (w : Nat) :
+    ({ width := w + 8,
+       len := ((rs.filter fun r => r.cid.digest.length == w).mergeSort (fun a b => bytesLe a.cid.digest b.cid.digest)).length,
+       index := ((rs.filter fun r => r.cid.digest.length == w).mergeSort (fun a b => bytesLe a.cid.digest b.cid.digest)).flatMap
+         fun r => compactEntry r.cid.digest r.offset } : SingleWidth) = bucketOf w (groupPairs rs w) := by
+  simp [bucketOf, groupPairs, compactOf, List.flatMap_map]
+
+theorem groupPairs_ok (rs : List Record) (w : Nat) (hoff : ∀ r ∈ rs, r.offset < 2 ^ 64) : PairsOK w (groupPairs rs w) := by
+  intro p hp
+  simp only [groupPairs, List.mem_map, List.mem_mergeSort, List.mem_filter] at hp
+  obtain ⟨r, ⟨hr, hw⟩, rfl⟩ := hp
+  exact ⟨by simpa using hw, hoff r hr⟩
+
+theorem groupPairs_sorted (rs : List Record) (w : Nat) :
+    (groupPairs rs w).Pairwise fun a b => pairLe a b = true := by
+  unfold groupPairs
+  rw [List.pairwise_map]
+  exact List.pairwise_mergeSort (fun a b c => bytesLe_trans a.cid.digest b.cid.digest c.cid.digest)
+    (fun a b => bytesLe_total a.cid.digest b.cid.digest) _
+
+/-- **`multiWidthIndex.GetAll` after `Load` is exact**: an offset is returned for digest `d` iff some
+    loaded record carries `d` at that offset. -/
+theorem multiWidth_getAll_load (rs : List Record) (hoff : ∀ r ∈ rs, r.offset < 2 ^ 64) (d : Bytes) (o : Nat) :
+    o ∈ MultiWidth.getAll (MultiWidth.load rs) d ↔ ∃ r ∈ rs, r.cid.digest = d ∧ r.offset = o := by
+  unfold MultiWidth.getAll MultiWidth.load
+  simp only [load_bucket]
+  have hfind := find_map_key (fun w => bucketOf w (groupPairs rs w)) (fun s => s.width == d.length + 8) d.length
+    (fun w => by simp [bucketOf]) (distinctSorted (rs.map fun r => r.cid.digest.length))
+  rw [hfind]
+  by_cases hmem : d.length ∈ distinctSorted (rs.map fun r => r.cid.digest.length)
+  · simp only [hmem, ↓reduceIte]
+    rw [getAll_bucket d.length (groupPairs rs d.length) (groupPairs_ok rs d.length hoff) (groupPairs_sorted rs d.length) d]
+    simp only [List.mem_map, List.mem_filter, groupPairs, List.mem_mergeSort]
+    constructor
+    · rintro ⟨p, ⟨⟨r, ⟨hr, _⟩, rfl⟩, hd⟩, rfl⟩
+      exact ⟨r, hr, by simpa using hd, rfl⟩
+    · rintro ⟨r, hr, hd, ho⟩
+      exact ⟨(r.cid.digest, r.offset), ⟨⟨r, ⟨hr, by simp [hd]⟩, rfl⟩, by simp [hd]⟩, ho⟩
+  · simp only [hmem, ↓reduceIte, List.not_mem_nil, false_iff]
+    rintro ⟨r, hr, hd, _⟩
+    apply hmem
+    rw [mem_distinctSorted]
+    exact List.mem_map.mpr ⟨r, hr, by rw [hd]⟩
+
+/-- **`MultihashIndexSorted.GetAll` after `Load` is exact**, keyed by (hash code, digest). -/
+theorem mhIndex_getAll_load (rs : List Record) (hoff : ∀ r ∈ rs, r.offset < 2 ^ 64) (code : Nat) (d : Bytes) (o : Nat) :
+    o ∈ MhIndex.getAll (MhIndex.load rs) code d ↔ ∃ r ∈ rs, r.cid.mhCode = code ∧ r.cid.digest = d ∧ r.offset = o := by
+  unfold MhIndex.getAll MhIndex.load
+  have hfind := find_map_key (fun c => (c, MultiWidth.load (rs.filter fun r => r.cid.mhCode == c))) (fun e => e.1 == code)
+    code (fun _ => rfl) (distinctSorted (rs.map fun r => r.cid.mhCode))
+  rw [hfind]
+  by_cases hmem : code ∈ distinctSorted (rs.map fun r => r.cid.mhCode)
+  · simp only [hmem, ↓reduceIte]
+    rw [multiWidth_getAll_load _ (fun r hr => hoff r (List.mem_filter.mp hr).1) d o]
+    constructor
+    · rintro ⟨r, hr, hd, ho⟩
+      obtain ⟨h1, h2⟩ := List.mem_filter.mp hr
+      exact ⟨r, h1, by simpa using h2, hd, ho⟩
+    · rintro ⟨r, hr, hc, hd, ho⟩
+      exact ⟨r, List.mem_filter.mpr ⟨hr, by simp [hc]⟩, hd, ho⟩
+  · simp only [hmem, ↓reduceIte, List.not_mem_nil, false_iff]
+    rintro ⟨r, hr, hc, _, _⟩
+    apply hmem
+    rw [mem_distinctSorted]
+    exact List.mem_map.mpr ⟨r, hr, hc⟩
+
+/-- **Lookup in a loaded index of either codec is exact.** -/
+theorem index_getAll_load (codec : Nat) (rs : List Record) (ix : Index) (h : Index.load codec rs = some ix)
+    (hoff : ∀ r ∈ rs, r.offset < 2 ^ 64) (c : Cid) (o : Nat) :
+    o ∈ ix.getAll c ↔
+      ∃ r ∈ rs, (codec = codecMhSorted → r.cid.mhCode = c.mhCode) ∧ r.cid.digest = c.digest ∧ r.offset = o := by
+  unfold Index.load at h
+  by_cases h1 : codec = codecSorted
+  · simp only [h1, ↓reduceIte, Option.some.injEq] at h
+    subst h
+    have : ¬ (codecSorted = codecMhSorted) := by decide
+    simp only [Index.getAll, h1, this, false_implies, true_and]
+    exact multiWidth_getAll_load rs hoff c.digest o
+  · by_cases h2 : codec = codecMhSorted
+    · simp only [h1, h2, ↓reduceIte, Option.some.injEq] at h
+      have hne : ¬ (codecMhSorted = codecSorted) := by decide
+      simp only [hne, ↓reduceIte, Option.some.injEq] at h
+      subst h
+      simp only [Index.getAll, h2, true_implies]
+      exact mhIndex_getAll_load rs hoff c.mhCode c.digest o
+    · simp [h1, h2] at h
 
 end Car
